@@ -174,7 +174,7 @@ fn collected(full: bool) {
   SCHEDULE.with(|schedule| {
     let schedule = &mut *schedule.borrow_mut();
     schedule.fired_total += 1;
-    if schedule.fired.len() < 20_000 {
+    if schedule.fired.len() < 20_000 && !simio::QUIET.load(std::sync::atomic::Ordering::Relaxed) {
       schedule.fired.push((index, if full { 2 } else { 1 }));
     }
 
@@ -530,6 +530,12 @@ fn run_job(job: &Value) -> Value {
 
   let mut final_stats = Value::Null;
   let mut leak = Value::Null;
+  let quiet = job.get("quiet").and_then(|v| v.as_bool()).unwrap_or(false);
+  simio::QUIET.store(quiet, std::sync::atomic::Ordering::Relaxed);
+  // bytes held from the system allocator before the VM exists and after it is gone: whatever a managed object or the
+  // VM obtained outside the managed heap has to be given back by then
+  let system_before = arena::system_live_bytes();
+  let mut system_after = system_before;
 
   let outcome = catch_unwind(AssertUnwindSafe(|| {
     let mut vm = ManuallyDrop::new(Vm::new(simio::sim_io()));
@@ -586,11 +592,13 @@ fn run_job(job: &Value) -> Value {
       unsafe { ManuallyDrop::drop(&mut vm) };
       let arena = ARENA.state();
       leak = json!({"blocks": arena.live_blocks, "bytes": arena.live_bytes});
+      system_after = arena::system_live_bytes();
     }
 
     result
   }));
 
+  simio::QUIET.store(false, std::sync::atomic::Ordering::Relaxed);
   ARENA.state().active = false;
   verif::set_gc_decider(None);
   verif::set_collected(None);
@@ -699,6 +707,7 @@ fn run_job(job: &Value) -> Value {
       "errors": arena_errors,
       "error_count": arena.error_count,
       "leak": leak,
+      "system_bytes_not_returned": (system_after - system_before) as i64,
     },
     "acct": acct,
     "final": final_stats,
